@@ -970,16 +970,33 @@ func (r *readerRun) splitJoined(b, term []byte) (segs [][]int, rest int, restOK 
 	// Messages appear in stream order: search the segmentation into (content + term) pieces with increasing
 	// message starts that covers the longest prefix of b (a payload byte may coincide with the terminator,
 	// so a greedy choice can be wrong).
+	restOf := func(pos int) (int, bool) {
+		rest := len(b) - pos
+		if rest == 0 {
+			return 0, true
+		}
+		for _, s := range starts {
+			if rest <= len(r.expect[s]) && bytes.Equal(r.expect[s][:rest], b[pos:]) {
+				return rest, true
+			}
+		}
+		return rest, false
+	}
+	// candidates: every segmentation prefix reached by the search; the one kept explains the tail as well if any does
+	// (a short message may coincide with the beginning of a longer one), and among those covers the longest prefix
 	var best []int
-	bestPos := 0
+	bestPos, bestOK := -1, false
 	var cur []int
+	nodes := 0
 	var dfs func(pos, from int)
 	dfs = func(pos, from int) {
-		if pos > bestPos || (pos == bestPos && best == nil) {
-			bestPos = pos
+		nodes++
+		_, ok := restOf(pos)
+		if bestPos < 0 || (ok && !bestOK) || (ok == bestOK && pos > bestPos) {
+			bestPos, bestOK = pos, ok
 			best = append([]int{}, cur...)
 		}
-		if pos >= len(b) {
+		if pos >= len(b) || nodes > 20000 {
 			return
 		}
 		for k := from; k < len(starts); k++ {
@@ -991,9 +1008,6 @@ func (r *readerRun) splitJoined(b, term []byte) (segs [][]int, rest int, restOK 
 				cur = append(cur, starts[k])
 				dfs(pos+len(e)+len(term), k+1)
 				cur = cur[:len(cur)-1]
-				if bestPos >= len(b) {
-					return
-				}
 			}
 		}
 	}
@@ -1007,16 +1021,7 @@ func (r *readerRun) splitJoined(b, term []byte) (segs [][]int, rest int, restOK 
 		}
 		segs = append(segs, cand)
 	}
-	pos := bestPos
-	rest = len(b) - pos
-	restOK = rest == 0
-	if rest > 0 {
-		for _, s := range starts {
-			if rest <= len(r.expect[s]) && bytes.Equal(r.expect[s][:rest], b[pos:]) {
-				restOK = true
-			}
-		}
-	}
+	rest, restOK = restOf(bestPos)
 	return
 }
 
